@@ -6,6 +6,7 @@ mod obs;
 mod props;
 mod record;
 mod rng;
+mod sched;
 mod shrink;
 mod spec;
 mod worker;
